@@ -50,6 +50,7 @@ func FloorToPowerOfTwo(n int) int {
 	n |= n >> 4
 	n |= n >> 8
 	n |= n >> 16
+	n |= n >> 32 // no-op for 32-bit ints
 
 	return n - (n >> 1)
 }
